@@ -118,6 +118,8 @@ def verdict(lines, cigar, text):
     for k, nd in FLOAT_LABELS:
         if k not in rep:
             return "report has no line %r" % k, 0
+        if k not in fl:
+            continue  # no primary record: the average over an empty set of reads is not defined by the property; the line must exist, any value
         acc, tie = accepted(fl[k], nd)
         if k == "Average mapping quality":
             acc, tie = {printed_single_division(fl[k], nd)}, False  # integer sums: no order or accumulation effects, exact prediction
@@ -250,10 +252,7 @@ def rand_file(rng, n, n_reads):
             tags.append("cg:Z:" + rand_cigar(rng))
         rng.shuffle(tags)
         lines.append(rec(nm, ql, qs, qe, matches, block, mapq, tags, path=rng.choice([">s1", "<s2>s3", ">s1<s4>s2"]), strand=rng.choice("+-")))
-    if all(is_secondary(l) for l in lines):
-        # domain: at least one primary record (the tool divides by the number of reads)
-        lines[rng.randrange(n)] = rec(rng.choice(names), 10, 0, 10, 9, 10, 60, ["tp:A:P", "cg:Z:9=1X"])
-    return lines
+    return lines  # files with no primary record at all are part of the domain ("any mix of tp:A ..., mapping qualities including 0")
 
 
 def is_secondary(l):
@@ -277,14 +276,12 @@ def run(ctx):
     # ---- 1. exhaustive: every sequence of <= L records of a fixed pool ---------------------------------------------------------------
     L = 3 if ctx.quick else 4
     ctx.bound("exhaustive: every sequence of 1..%d records (with repetition, hence every order of every multiset) from a fixed pool of %d records "
-              "(3 reads; tp:A:P/S/I/absent; MAPQ 0/1/30/60/255; CIGAR runs of 49/50/51; decoy fields such as zz:Z:tp:A:S) that contains at least one "
-              "primary record, with and without --cigar" % (L, len(POOL)))
+              "(3 reads; tp:A:P/S/I/absent; MAPQ 0/1/30/60/255; CIGAR runs of 49/50/51; decoy fields such as zz:Z:tp:A:S), files without any "
+              "primary record included, with and without --cigar" % (L, len(POOL)))
     by_multiset = {}
     for n in range(1, L + 1):
         for seq in itertools.product(range(len(POOL)), repeat=n):
             lines = [POOL[i] for i in seq]
-            if all(is_secondary(l) for l in lines):
-                continue
             for cigar in (False, True):
                 k = (tuple(sorted(seq)), cigar)
                 text = evaluate(ctx, "exhaustive", d, lines, cigar, base=by_multiset.get(k))
